@@ -1512,7 +1512,7 @@ var (
 	paramValueStack []map[*ssa.Parameter]ssa.Value
 	paramSubstStack []map[*ssa.Parameter]string
 	paramAlias      = map[*ssa.Parameter]string{}
-	boundSite       = map[*ssa.Function]*ssa.MakeClosure{} // new method used as a method value -> where it is bound
+	boundSite       = map[*ssa.Function]ssa.Value{} // new method used as a method value (or through an interface) -> the receiver it is bound to
 )
 
 // anonFuncs returns the function literals of fn, also those that moved into a
@@ -1543,6 +1543,29 @@ func anonFuncs(fn *ssa.Function) []*ssa.Function {
 					out = append(out, anonFuncs(g)...)
 				}
 			}
+			// a literal that became a named type with one method, used through an interface where the literal
+			// (wrapped in a func adapter) was used: the method is the literal, the receiver what it captured
+			if mi, ok := ins.(*ssa.MakeInterface); ok {
+				if m := soleMethodOfNewType(fn.Prog, mi.X.Type()); m != nil && !seen[m] {
+					seen[m] = true
+					boundSite[m] = mi.X
+					for i, p := range m.Params {
+						if i == 0 {
+							paramAlias[p] = "^0"
+						} else {
+							paramAlias[p] = fmt.Sprintf("$%d", i-1)
+						}
+					}
+					if _, has := curRenames.funcAlias[m]; !has && len(fn.AnonFuncs) == 0 {
+						root := fn.String()
+						if old, ok := curRenames.funcAlias[fn]; ok {
+							root = old
+						}
+						curRenames.funcAlias[m] = root + "$1" // the only literal the reference function had
+					}
+					out = append(out, m)
+				}
+			}
 			for _, op := range ins.Operands(nil) {
 				switch v := (*op).(type) {
 				case *ssa.MakeClosure:
@@ -1555,7 +1578,7 @@ func anonFuncs(fn *ssa.Function) []*ssa.Function {
 						continue
 					}
 					seen[m] = true
-					boundSite[m] = v
+					boundSite[m] = v.Bindings[0]
 					for i, p := range m.Params {
 						if i == 0 {
 							paramAlias[p] = "^0"
@@ -1623,12 +1646,12 @@ func boundFieldTerm(base ssa.Value, field int) (string, bool) {
 }
 
 // carrierOf: the local struct a method value is bound to, when the receiver is a struct built right there.
-func carrierOf(mc *ssa.MakeClosure) *ssa.Alloc {
-	if len(mc.Bindings) != 1 {
+func carrierOf(recv ssa.Value) *ssa.Alloc {
+	if recv == nil {
 		return nil
 	}
 	var carrier *ssa.Alloc
-	switch v := mc.Bindings[0].(type) {
+	switch v := recv.(type) {
 	case *ssa.Alloc:
 		carrier = v
 	case *ssa.UnOp:
@@ -1659,7 +1682,7 @@ func carrierOf(mc *ssa.MakeClosure) *ssa.Alloc {
 	// only field stores and loads: a struct that exists to carry the captured values
 	for _, ref := range *carrier.Referrers() {
 		switch ref.(type) {
-		case *ssa.FieldAddr, *ssa.UnOp, *ssa.DebugRef, *ssa.MakeClosure, *ssa.Store:
+		case *ssa.FieldAddr, *ssa.UnOp, *ssa.DebugRef, *ssa.MakeClosure, *ssa.Store, *ssa.MakeInterface:
 		default:
 			return nil
 		}
@@ -1668,8 +1691,8 @@ func carrierOf(mc *ssa.MakeClosure) *ssa.Alloc {
 }
 
 // carrierBindings: what the carrier's fields hold, by field index, in the building function's terms.
-func carrierBindings(mc *ssa.MakeClosure) []string {
-	carrier := carrierOf(mc)
+func carrierBindings(recv ssa.Value) []string {
+	carrier := carrierOf(recv)
 	if carrier == nil {
 		return nil
 	}
@@ -2062,4 +2085,26 @@ func carrierFieldValue(base ssa.Value, f int, depth int) ssa.Value {
 		}
 	}
 	return nil
+}
+
+// soleMethodOfNewType: t (or *t) is a named type the reference tree does not have, with exactly one method declared
+// in the module; returns that method.
+func soleMethodOfNewType(prog *ssa.Program, t types.Type) *ssa.Function {
+	base := t
+	if p, ok := t.Underlying().(*types.Pointer); ok {
+		base = p.Elem()
+	}
+	named, ok := base.(*types.Named)
+	if !ok || !isNewType(named) || named.NumMethods() != 1 {
+		return nil
+	}
+	ms := prog.MethodSets.MethodSet(t)
+	if ms.Len() != 1 {
+		return nil
+	}
+	m := prog.MethodValue(ms.At(0))
+	if m == nil || len(m.Blocks) == 0 || !inModule(m) {
+		return nil
+	}
+	return m
 }
